@@ -2,11 +2,18 @@ package wired
 
 import (
 	sdkmath "cosmossdk.io/math"
+	storetypes "cosmossdk.io/store/types"
+	"github.com/cosmos/cosmos-sdk/codec/address"
 	codectypes "github.com/cosmos/cosmos-sdk/codec/types"
+	"github.com/cosmos/cosmos-sdk/runtime"
 	sdk "github.com/cosmos/cosmos-sdk/types"
+	gethcommon "github.com/ethereum/go-ethereum/common"
 	"github.com/palomachain/paloma/v2/x/consensus/keeper/consensus"
 	consensustypes "github.com/palomachain/paloma/v2/x/consensus/types"
 	evmtypes "github.com/palomachain/paloma/v2/x/evm/types"
+	palomakeeper "github.com/palomachain/paloma/v2/x/paloma/keeper"
+	palomatypes "github.com/palomachain/paloma/v2/x/paloma/types"
+	valsettypes "github.com/palomachain/paloma/v2/x/valset/types"
 	"github.com/palomachain/paloma/v2/zzverif/models"
 	"github.com/palomachain/paloma/v2/zzverif/sym"
 )
@@ -45,6 +52,9 @@ func c08Events(ctx sdk.Context) []string {
 	}
 	return out
 }
+
+// c08Permute: the node under test iterates its maps in an arbitrary order
+var c08Permute bool
 
 func c08Run(env *Env, op int, texts [3]string, daysLater int64) (res []string) {
 	// the block under test is produced some time after the world was set up
@@ -112,6 +122,30 @@ func c08Run(env *Env, op int, texts [3]string, daysLater int64) (res []string) {
 		} else {
 			res = append(res, "not alive")
 		}
+	case 5: // the paloma end blocker jails validators that lack an account on a supported chain
+		sym.MapOrder(false) // (set-up)
+		env.AddChain(ChainB, 2)
+		for i := 0; i < 3; i++ {
+			// the three big validators support both chains
+			if err := env.Valset.AddExternalChainInfo(env.Ctx, Vals[i], []*valsettypes.ExternalChainInfo{
+				{ChainType: "evm", ChainReferenceID: ChainA, Address: models.EthAddrs[i], Pubkey: gethcommon.HexToAddress(models.EthAddrs[i]).Bytes()},
+				{ChainType: "evm", ChainReferenceID: ChainB, Address: models.EthAddrs[i+3], Pubkey: gethcommon.HexToAddress(models.EthAddrs[i+3]).Bytes()}}); err != nil {
+				panic(err)
+			}
+		}
+		env.Staking.Add(Vals[3], 3, false, sdkmath.NewInt(1_000_000), 1) // a small one supports neither
+		pk := palomakeeper.NewKeeper(env.Cdc, runtime.NewKVStoreService(storetypes.NewKVStoreKey(palomatypes.StoreKey)), models.Subspace(env.Cdc, palomatypes.ModuleName),
+			"v1.0.0", "ugrain", env.Accounts, env.Bank, nil, env.Valset, nil, address.NewBech32Codec("palomavaloper"), Authority)
+		pk.ExternalChains = []palomatypes.ExternalChainSupporterKeeper{env.Evm}
+		sym.MapOrder(c08Permute)
+		if err := pk.JailValidatorsWithMissingExternalChainInfos(env.Ctx); err != nil {
+			res = append(res, "error: "+err.Error())
+		}
+		for i := 0; i < 4; i++ {
+			if env.Staking.Find(Vals[i]).Jailed {
+				res = append(res, "jailed: "+Vals[i].String())
+			}
+		}
 	case 3: // metric updates at the block boundary
 		env.Metrix.UpdateUptime(env.Ctx)
 		env.Metrix.UpdateRelayMetrics(env.Ctx)
@@ -129,7 +163,7 @@ func c08Run(env *Env, op int, texts [3]string, daysLater int64) (res []string) {
 }
 
 func VerifC08_Twin() {
-	op := sym.Choice("operation", 5)
+	op := sym.Choice("operation", 6)
 	daysLater := []int64{0, 29, 31}[sym.Choice("days-later", 3)]
 	var texts [3]string
 	if op == 2 {
@@ -160,7 +194,8 @@ func VerifC08_Twin() {
 			sym.Setenv("LANG", "ja_JP.UTF-8")
 			sym.Setenv("PALOMA_TEST_NET", "1")
 		}
-		sym.MapOrder(node == 1)
+		c08Permute = node == 1
+		sym.MapOrder(c08Permute)
 		res[node] = c08Run(env, op, texts, daysLater)
 		sym.MapOrder(false)
 		if otherEnv {
